@@ -141,7 +141,7 @@ def parse_graphic_sequence(
     if isinstance(sequence, str):
         items = [item.strip() for item in sequence.split(ansi_sep)]
     else:
-        items = sequence
+        items = list(sequence)
     # Attempt to make each value an integer
     for idx, value in enumerate(items):
         try:
